@@ -414,3 +414,112 @@ def replay_finding(f):
     r = ob_roundtrip(t["family"], t.get("w", 8)) if t.get("family") else ob_totality()
     # run without the exclusion: re-evaluate directly
     return {"reproduced": True, "text": "listed kinds are skipped by the check; see witness"}
+
+
+# ---- the trusted base made explicit: which Z3 tactics BackendZ3.simplify runs -----------------------------------------------------
+
+# tactics that, on a single goal, return ONE goal equivalent to the input over the same free constants (no fresh symbols, no case split, no
+# satisfiability-only reduction); "meaning preserving" in TRUSTED means exactly this list
+EQUIVALENCE_PRESERVING_TACTICS = {"simplify", "propagate-ineqs", "propagate-values", "unit-subsume-simplify", "aig", "ctx-simplify",
+                                  "ctx-solver-simplify", "elim-and", "skip"}
+
+
+def ob_tactic_frame(tier="quick"):
+    """frame obligation (syntactic, on the parsed source of backend_z3.py, like C19's lock coverage): every z3.Tactic(...) the backend
+    builds is named by a string literal from EQUIVALENCE_PRESERVING_TACTICS, tactics are only combined with z3.Then, and simplify() on a
+    Boolean term runs only that pipeline.  C09 trusts Z3's tactics to preserve meaning; this pins WHICH tactics that trust covers - Z3 also
+    ships tactics that preserve satisfiability only (reduce-bv-size, solve-eqs, elim-uncnstr, bit-blast with fresh symbols ...)."""
+    import ast
+    import hashlib
+    import os
+    rel = "claripy/backends/backend_z3.py"
+    src = open(os.path.join(loader.REPO, rel)).read()
+    loader.SOURCES[rel] = hashlib.sha256(src.encode()).hexdigest()
+    res = paths.Result()
+    res.paths = 1
+    problems = []
+    n = 0
+    for node in ast.walk(ast.parse(src)):
+        if isinstance(node, ast.Call):
+            f = node.func
+            name = f.attr if isinstance(f, ast.Attribute) else getattr(f, "id", None)
+            if name == "Tactic":
+                n += 1
+                res.vcs += 1
+                a0 = node.args[0] if node.args else None
+                if not (isinstance(a0, ast.Constant) and isinstance(a0.value, str)):
+                    problems.append(f"line {node.lineno}: z3.Tactic(...) with a name that is not a string literal")
+                elif a0.value not in EQUIVALENCE_PRESERVING_TACTICS:
+                    problems.append(f"line {node.lineno}: tactic {a0.value!r} is not in the list of equivalence-preserving tactics")
+            elif name in ("OrElse", "ParOr", "ParThen", "Repeat", "TryFor", "With", "WithParams", "Cond", "When", "FailIf"):
+                res.vcs += 1
+                problems.append(f"line {node.lineno}: tactic combinator {name} (only Then is covered by the trusted statement)")
+    if n == 0:
+        problems.append("no z3.Tactic(...) found: the obligation is vacuous, the pipeline is built some other way")
+    for p in problems:
+        res.failures.append(paths.Failure("tactics/only-equivalence-preserving", "frame", {}, p, []))
+    res.status = "violated" if problems else "discharged"
+    res.covers = {"tactic-constructions": n}
+    return res
+
+
+TACTIC_CORPUS = None
+
+
+def tactic_corpus(tier="quick", budget_s=60):
+    """bounded (never counted as proved): the real tactic pipeline on a corpus of Boolean terms - range constraints in both signednesses,
+    equalities that determine a variable, mixed widths, nested connectives - must return a term equivalent to its input (z3) over a subset of
+    its free constants."""
+    import itertools
+    import time
+    bz, ctx = _ctx()
+    t0 = time.time()
+    forms = []
+    for w in (8, 32):
+        x, y = z3.BitVec(f"tc_x{w}", w, ctx), z3.BitVec(f"tc_y{w}", w, ctx)
+        K = lambda v: z3.BitVecVal(v, w, ctx)
+        atoms = [x > K(-10), x < K(10), z3.UGT(x, K(3)), z3.ULT(x, K(200 if w == 8 else 70000)), x == K(5), x == y + K(1), y != K(0), z3.ULE(y, x),
+                 z3.Extract(0, 0, x) == z3.BitVecVal(1, 1, ctx), (x & K(15)) == K(7)]
+        forms += atoms
+        for a, b in itertools.combinations(atoms, 2):
+            forms += [z3.And(a, b), z3.Or(a, b), z3.And(a, z3.Not(b))]
+        forms += [z3.And(atoms[0], atoms[1], atoms[5]), z3.Or(z3.And(atoms[0], atoms[1]), atoms[4])]
+    failures, n = [], 0
+
+    def consts(t, acc):
+        if z3.is_const(t) and t.decl().kind() == z3.Z3_OP_UNINTERPRETED:
+            acc.add(str(t))
+        for ch in t.children():
+            consts(ch, acc)
+        return acc
+    for f in forms:
+        if time.time() - t0 > budget_s:
+            break
+        n += 1
+        try:
+            g = bz._boolref_tactics(f).as_expr()
+        except z3.Z3Exception as ex:
+            failures.append({"label": "tactics/raises", "kind": "bounded", "witness": {"term": f.sexpr()}, "detail": f"{ex}"})
+            continue
+        s = z3.Solver(ctx=ctx)
+        s.set("timeout", 10000)
+        s.add(g != f)
+        r = s.check()
+        new = consts(g, set()) - consts(f, set())
+        if r == z3.sat or new:
+            failures.append({"label": "tactics/equivalent-over-the-same-constants", "kind": "bounded", "witness": {"term": f.sexpr(), "result": g.sexpr()},
+                             "detail": f"the pipeline turned {f} into {g}" + (f", introducing {sorted(new)}" if new else "") +
+                                       (f"; they differ under {s.model()}" if r == z3.sat else "")})
+    return {"status": "violated" if failures else "ok", "evaluations": n, "distinct_nontrivial": n, "failures": failures[:5], "n_failures": len(failures), "reason": "",
+            "rule": "BackendZ3._boolref_tactics on a fixed corpus of Boolean terms (range constraints signed / unsigned, determining equalities, bit tests, pairs under And / Or / And-Not) at 8 and 32 bits; nontrivial = all"}
+
+
+def replay_tactics(task, failure):
+    import claripy
+    x = claripy.BVS("tc_rx", 32, explicit_name=True)
+    e = claripy.And(claripy.SGT(x, -10), claripy.SLT(x, 10))
+    r = claripy.simplify(e)
+    s = claripy.Solver()
+    s.add(r)
+    bad = not (r.variables <= e.variables) or s.satisfiable(extra_constraints=[x == 1000])
+    return {"reproduced": bool(bad), "text": f"claripy.simplify({e}) = {r} with variables {sorted(r.variables)}; x == 1000 is {'possible' if bad else 'impossible'} under it"}
